@@ -22,6 +22,6 @@ package server6
 //@   ensures[returns-on-read-error] result != nil
 //@   after `call:ReadFrom` let S0 = spawned()
 //@   after `call:ReadFrom` let N0 = allocstamp()
-//@   after `s.logger.Printf("Error parsing DHCPv6 request: %v", err)` claim[undecodable-not-dispatched] spawned() == S0 && !dhcpv6.SpecAcceptV6(string(rbuf[:n]))
+//@   after `loopend:` claim[per-datagram] spawned() == S0 || (spawned() == S0 + 1 && dhcpv6.SpecAcceptV6(string(rbuf[:n])))
 //@   after `go:` claim[dispatched-once] spawned() == S0 + 1 && d != nil && dhcpv6.SpecAcceptV6(string(rbuf[:n]))
 //@   after `go:` claim[own-message] (typeIs(d, *dhcpv6.Message) || typeIs(d, *dhcpv6.RelayMessage)) && (typeIs(d, *dhcpv6.Message) ==> ref(d.(*dhcpv6.Message)) >= N0) && (typeIs(d, *dhcpv6.RelayMessage) ==> ref(d.(*dhcpv6.RelayMessage)) >= N0)
